@@ -6,10 +6,31 @@ mod crdt;
 mod place;
 mod recov;
 mod repl;
+mod resp;
 mod stream;
 mod util;
 mod wal;
 mod walfmt;
+
+/// Counting allocator: total bytes ever requested (for the "no allocation proportional to an
+/// unvalidated length" part of C15).
+pub static ALLOCATED: std::sync::atomic::AtomicUsize = std::sync::atomic::AtomicUsize::new(0);
+struct Counting;
+unsafe impl std::alloc::GlobalAlloc for Counting {
+    unsafe fn alloc(&self, l: std::alloc::Layout) -> *mut u8 {
+        ALLOCATED.fetch_add(l.size(), std::sync::atomic::Ordering::Relaxed);
+        std::alloc::System.alloc(l)
+    }
+    unsafe fn dealloc(&self, p: *mut u8, l: std::alloc::Layout) {
+        std::alloc::System.dealloc(p, l)
+    }
+    unsafe fn realloc(&self, p: *mut u8, l: std::alloc::Layout, n: usize) -> *mut u8 {
+        ALLOCATED.fetch_add(n.saturating_sub(l.size()), std::sync::atomic::Ordering::Relaxed);
+        std::alloc::System.realloc(p, l, n)
+    }
+}
+#[global_allocator]
+static GLOBAL: Counting = Counting;
 
 fn main() {
     let args: Vec<String> = std::env::args().collect();
@@ -31,6 +52,7 @@ fn main() {
         "clock" => clock::main(rest),
         "ae" => ae::main(rest),
         "place" => place::main(rest),
+        "resp" => resp::main(rest),
         m => {
             eprintln!("unknown module {m}");
             2
